@@ -264,8 +264,14 @@ impl Language for Swift {
         Ok(())
     }
 
-    fn write_const(&mut self, _w: &mut dyn Write, _c: &RustConst) -> std::io::Result<()> {
-        todo!()
+    fn write_const(&mut self, _w: &mut dyn Write, c: &RustConst) -> std::io::Result<()> {
+        Err(std::io::Error::new(
+            std::io::ErrorKind::Unsupported,
+            format!(
+                "constants are not supported for Swift: cannot generate `{}`",
+                c.id.original
+            ),
+        ))
     }
 
     fn write_struct(&mut self, w: &mut dyn Write, rs: &RustStruct) -> io::Result<()> {
